@@ -275,15 +275,24 @@ pub enum Backing {
 
 pub fn run(kind: Kind, cfg: Cfg, seq: &[Sym], w: &Wire, backing: Backing, burst: bool) -> RunOut {
     match (kind, backing) {
-        (Kind::Map, Backing::Hash) => run_map_hash(cfg, seq, w, burst),
-        (Kind::Map, Backing::BTree) => run_map_btree(cfg, seq, w, burst),
-        (Kind::Value, _) => run_value(cfg, seq, w, burst),
+        (Kind::Map, Backing::Hash) => run_map_hash(cfg, seq, w, burst, false),
+        (Kind::Map, Backing::BTree) => run_map_btree(cfg, seq, w, burst, false),
+        (Kind::Value, _) => run_value(cfg, seq, w, burst, false),
+    }
+}
+
+/// The same downlink after the agent has dropped its handle (the write stream of the channel
+/// terminates; local write symbols are ignored).
+pub fn run_read_only(kind: Kind, cfg: Cfg, seq: &[Sym], w: &Wire) -> RunOut {
+    match kind {
+        Kind::Map => run_map_hash(cfg, seq, w, false, true),
+        Kind::Value => run_value(cfg, seq, w, false, true),
     }
 }
 
 macro_rules! run_map_impl {
     ($name:ident, $backing:ty) => {
-fn $name(cfg: Cfg, seq: &[Sym], w: &Wire, burst: bool) -> RunOut {
+fn $name(cfg: Cfg, seq: &[Sym], w: &Wire, burst: bool, read_only: bool) -> RunOut {
     let mut out = RunOut::default();
     let log: Log = Default::default();
     let agent = Agent;
@@ -291,23 +300,33 @@ fn $name(cfg: Cfg, seq: &[Sym], w: &Wire, burst: bool) -> RunOut {
     let env = Env::new();
     let config = MapDownlinkConfig { events_when_not_synced: cfg.ewns, terminate_on_unlinked: cfg.term };
     let action = OpenMapDownlinkAction::<i32, i32, $backing, Lc>::new(Address::text(None, "/node", "lane"), Lc { log: log.clone() }, config);
-    let handle = run_action(action, &agent, &spawner, &env);
+    let mut handle = Some(run_action(action, &agent, &spawner, &env));
     let factory = spawner.factory.borrow_mut().take().expect("harness: no downlink factory registered");
     let (mut in_tx, in_rx) = byte_channel(NonZeroUsize::new(CHANNEL).unwrap());
     let (out_tx, out_rx) = byte_channel(NonZeroUsize::new(CHANNEL).unwrap());
     let chan = factory.create_box(&agent, out_tx, in_rx);
     let mut subj = Subject::new(drive(chan).budgeted());
     settle(&mut subj, &mut out);
+    if read_only {
+        handle = None;
+        settle(&mut subj, &mut out);
+    }
     for (_i, s) in seq.iter().enumerate() {
         match *s {
             Sym::LUpd(k, x) => {
-                let _ = handle.update(k, x);
+                if let Some(h) = &handle {
+                    let _ = h.update(k, x);
+                }
             }
             Sym::LRem(k) => {
-                let _ = handle.remove(k);
+                if let Some(h) = &handle {
+                    let _ = h.remove(k);
+                }
             }
             Sym::LClear => {
-                let _ = handle.clear();
+                if let Some(h) = &handle {
+                    let _ = h.clear();
+                }
             }
             other => {
                 if let Some(bytes) = w.map_bytes(other) {
@@ -320,7 +339,7 @@ fn $name(cfg: Cfg, seq: &[Sym], w: &Wire, burst: bool) -> RunOut {
         }
         settle(&mut subj, &mut out);
         out.steps.push(take(&log));
-        out.status.push(Status { done: !subj.alive(), failed: false, linked: Some(handle.is_linked()), stopped: Some(handle.is_stopped()) });
+        out.status.push(Status { done: !subj.alive(), failed: false, linked: handle.as_ref().map(|h| h.is_linked()), stopped: handle.as_ref().map(|h| h.is_stopped()) });
         if out.hang {
             return out;
         }
@@ -338,7 +357,7 @@ fn $name(cfg: Cfg, seq: &[Sym], w: &Wire, burst: bool) -> RunOut {
 run_map_impl!(run_map_hash, HashMap<i32, i32>);
 run_map_impl!(run_map_btree, BTreeMap<i32, i32>);
 
-fn run_value(cfg: Cfg, seq: &[Sym], w: &Wire, burst: bool) -> RunOut {
+fn run_value(cfg: Cfg, seq: &[Sym], w: &Wire, burst: bool, read_only: bool) -> RunOut {
     let mut out = RunOut::default();
     let log: Log = Default::default();
     let agent = Agent;
@@ -346,17 +365,23 @@ fn run_value(cfg: Cfg, seq: &[Sym], w: &Wire, burst: bool) -> RunOut {
     let env = Env::new();
     let config = SimpleDownlinkConfig { events_when_not_synced: cfg.ewns, terminate_on_unlinked: cfg.term };
     let action = OpenValueDownlinkAction::<i32, VLc>::new(Address::text(None, "/node", "lane"), VLc { log: log.clone() }, config);
-    let mut handle = run_action(action, &agent, &spawner, &env);
+    let mut handle = Some(run_action(action, &agent, &spawner, &env));
     let factory = spawner.factory.borrow_mut().take().expect("harness: no downlink factory registered");
     let (mut in_tx, in_rx) = byte_channel(NonZeroUsize::new(CHANNEL).unwrap());
     let (out_tx, out_rx) = byte_channel(NonZeroUsize::new(CHANNEL).unwrap());
     let chan = factory.create_box(&agent, out_tx, in_rx);
     let mut subj = Subject::new(drive(chan).budgeted());
     settle(&mut subj, &mut out);
+    if read_only {
+        handle = None;
+        settle(&mut subj, &mut out);
+    }
     for (_i, s) in seq.iter().enumerate() {
         match *s {
             Sym::LSet(x) => {
-                let _ = handle.set(x);
+                if let Some(h) = handle.as_mut() {
+                    let _ = h.set(x);
+                }
             }
             other => {
                 if let Some(bytes) = w.value_bytes(other) {
@@ -369,7 +394,7 @@ fn run_value(cfg: Cfg, seq: &[Sym], w: &Wire, burst: bool) -> RunOut {
         }
         settle(&mut subj, &mut out);
         out.steps.push(take(&log));
-        out.status.push(Status { done: !subj.alive(), failed: false, linked: Some(handle.is_linked()), stopped: Some(handle.is_stopped()) });
+        out.status.push(Status { done: !subj.alive(), failed: false, linked: handle.as_ref().map(|h| h.is_linked()), stopped: handle.as_ref().map(|h| h.is_stopped()) });
         if out.hang {
             return out;
         }
